@@ -349,3 +349,48 @@ func HarnessC18Processed() {
 	vrt.Assert((err != nil) == (handlerFailed && !ackErrors), "the command is acked or nacked as AckCommandErrors says")
 	vrt.Assert(err == nil || err == herr, "the handler's own error is what makes the command Nack")
 }
+
+// HarnessC18ForeignReply: the reply topic is shared with requests of another backend whose result type this
+// listener cannot decode (another Result type, another marshaler): such a notification, carrying another
+// operation id, arrives before (or after) the caller's own reply. The caller still gets exactly its own reply.
+func HarnessC18ForeignReply() {
+	finished := 0
+	sub := &notifSubscriber{}
+	b := c18Backend(sub, &c18Pub{}, &finished, false)
+	ctx, cancel := context.WithCancel(context.Background())
+	replies, err := b.ListenForNotifications(ctx, BackendListenForNotificationsParams{OperationID: "mine"})
+	vrt.Assert(err == nil, "listening")
+	foreign := message.NewMessage("f", message.Payload(vrt.Bytes("foreign.payload", 2))) // arbitrary bytes, not a reply of this backend
+	foreign.Metadata.Set(OperationIDMetadataKey, "other")
+	own := c18Notification("mine", 10, vrt.Bool("own.failed"))
+	notes := []*message.Message{foreign, own}
+	if vrt.Bool("own.reply.first") {
+		notes = []*message.Message{own, foreign}
+	}
+	go func() {
+		vrt.MayBlock()
+		for _, n := range notes {
+			sub.chs[0] <- n
+			select {
+			case <-n.Acked():
+			case <-n.Nacked():
+			}
+		}
+	}()
+	r := <-replies
+	vrt.Assert(r.NotificationMessage != nil && r.NotificationMessage.Metadata.Get(OperationIDMetadataKey) == "mine", "a caller only ever reads replies produced for its own command")
+	vrt.Assert(r.HandlerResult.N == 10, "carrying the handler's result")
+	cancel()
+	extra := 0
+	for r := range replies {
+		if r.NotificationMessage != nil {
+			extra++
+		}
+	}
+	vrt.Assert(extra == 0, "and nothing else")
+	vrt.AtQuiescence(func() {
+		vrt.Assert(finished == 1, "OnListenForReplyFinished runs exactly once")
+		vrt.Assert(vrt.Live("requestreply.PubSubBackend") == 0, "the listener goroutine terminates")
+	})
+	vrt.Observe("done", true)
+}
